@@ -3,8 +3,10 @@ import hashlib
 from common import case, coq_bytes, coq_result, coq_lit
 
 ID = "C15"
-MAKE_TARGETS = ["Props/C15.v", "GenProps/CoinbaseGen.v"]
-GEN_TABLES = ["CoinbaseGen"]
+MAKE_TARGETS = ["Props/C15.v", "GenProps/CoinbaseGen.v", "Props/C15Ext.v", "GenProps/BlockchainGen.v"]
+GEN_TABLES = ["CoinbaseGen", "BlockchainGen"]
+# further Props files whose `Print Assumptions` blocks belong to this check (common.build_obligations)
+ASSUMPTION_FILES = ["Props/C15Ext.v"]
 CASE_TIMEOUT = 60.0
 ASSUMPTIONS = [
     "sha256 is an arbitrary function in every theorem (hashlib answers it at run time)",
@@ -21,8 +23,21 @@ ASSUMPTIONS = [
     "modelled, not verified: blockchain.py (merkle_root, block_header, block_ser, block_header_deser, block_deser), "
     "tx.py (coinbase_txin, coinbase_tx and the serialisers they call), the block-assembly lines of integrations.mine_block "
     "(RPC, clock and nonce search stubbed/not modelled)",
+    "extension (Props/C15Ext.v; outside the property statement): blockchain.target_threshold is modelled for every byte "
+    "string - an int, or for exponent < number of mantissa bytes the FLOAT Python computes, carried as its exact ratio; "
+    "it is Bitcoin Core's SetCompact exactly for exponent >= 3, sign bit clear, value < 2^256 (theorem "
+    "C15_ext_target_agrees_iff; sign bit, overflow and small exponents are _refuted examples, not violations)",
+    "extension: blockchain.difficulty is modelled for integer targets: Python's int / int is the binary64 nearest to the exact "
+    "quotient (ties to even, gradual underflow, OverflowError at 2^1024, ZeroDivisionError), carried as the float's exact "
+    "ratio; the tie branch of the rounding is unreachable through difficulty (max_target / target is never a tie)",
+    "extension: integrations.median_time is modelled over a chain of block times served by a stubbed RPC layer "
+    "(getblockcount/getblockhash/getblock); it is Core's median time past for chains of >= 12 blocks and for the genesis "
+    "block alone, not below (C15_ext_median_time_short_chain_refuted: genesis never collected, even counts averaged)",
+    "extension: blockchain.genesis_coinbase_tx / genesis_block are modelled from the models of the functions they call; "
+    "the model's answer is the published genesis block for every hash function whose value on the coinbase is the "
+    "published txid (hashlib's is: checked on every run)",
 ]
-FILLER = {"merkle-rand", "height-rand", "hdr-rand"}
+FILLER = {"merkle-rand", "height-rand", "hdr-rand", "nbits-rand", "mtp-rand", "difficulty-rand"}
 COQ_PRELUDE = []
 
 # ------------------------------------------------------------------------------------------------
@@ -169,6 +184,26 @@ def ser_tx(version, ins, outs, locktime, wits=None):
     return out + locktime.to_bytes(4, "little")
 
 
+def ref_setcompact(c):
+    """Bitcoin Core arith_uint256::SetCompact on a 32-bit compact number: (value mod 2^256, negative, overflow)"""
+    size = c >> 24
+    word = c & 0x007fffff
+    if size <= 3:
+        word >>= 8 * (3 - size)
+        value = word
+    else:
+        value = (word << (8 * (size - 3))) & ((1 << 256) - 1)
+    negative = word != 0 and (c & 0x00800000) != 0
+    overflow = word != 0 and (size > 34 or (word > 0xff and size > 33) or (word > 0xffff and size > 32))
+    return (value, negative, overflow)
+
+
+def ref_mtp(chain):
+    """Bitcoin Core GetMedianTimePast: the block and up to ten ancestors, sorted, element count // 2"""
+    w = sorted(chain[-11:])
+    return w[len(w) // 2]
+
+
 GENESIS = bytes.fromhex(
     "0100000000000000000000000000000000000000000000000000000000000000000000003ba3edfd7a7b12b27ac72c3e67768f617fc81bc3888a5132"
     "3a9fb8aa4b1e5e4a29ab5f49ffff001d1dac2b7c01010000000100000000000000000000000000000000000000000000000000000000000000"
@@ -276,6 +311,59 @@ def _block_deser(b):
 def _genesis_block():
     import bits.blockchain as bc
     return bc.genesis_block()
+
+
+def _genesis_coinbase_tx():
+    import bits.blockchain as bc
+    return bc.genesis_coinbase_tx()
+
+
+def _target_threshold(nbits):
+    """an int, or - where Python's 256 ** negative makes the product a float - the float's exact ratio (num, den)"""
+    import bits.blockchain as bc
+    r = bc.target_threshold(nbits)
+    if isinstance(r, float):
+        return tuple(r.as_integer_ratio())
+    assert isinstance(r, int) and not isinstance(r, bool), type(r)
+    return r
+
+
+def _difficulty(target, network):
+    """the float as its exact ratio; network None = the default argument"""
+    import bits.blockchain as bc
+    r = bc.difficulty(target) if network is None else bc.difficulty(target, network)
+    assert isinstance(r, float), type(r)
+    return tuple(r.as_integer_ratio())
+
+
+def _median_time(chain):
+    """bits.integrations.median_time with the RPC layer replaced by a node whose best chain has the block times
+    `chain` (by height); a height outside the chain is refused as bitcoind refuses it"""
+    import bits.integrations as integ
+    import bits.rpc
+    chain = list(chain)
+
+    def rpc(name, *args, **kw):
+        if name == "getblockcount":
+            return len(chain) - 1
+        if name == "getblockhash":
+            h = args[0]
+            if not (isinstance(h, int) and 0 <= h < len(chain)):
+                raise RuntimeError("Block height out of range")
+            return "%064x" % (h + 0xb10c)
+        if name == "getblock":
+            h = int(args[0], 16) - 0xb10c
+            return {"hash": args[0], "height": h, "time": chain[h], "mediantime": -1, "nTx": 1}
+        raise RuntimeError("unexpected rpc " + name)
+
+    old = bits.rpc.rpc_method
+    bits.rpc.rpc_method = rpc
+    try:
+        r = integ.median_time()
+    finally:
+        bits.rpc.rpc_method = old
+    assert isinstance(r, int) and not isinstance(r, bool), type(r)
+    return r
 
 
 def _mine_block_assemble(spk, height, regtest, raws, via_cli=False):
@@ -394,6 +482,10 @@ IMPL = {
     "block_deser": _block_deser,
     "genesis_block": _genesis_block,
     "mine_block_assemble": _mine_block_assemble,
+    "genesis_coinbase_tx": _genesis_coinbase_tx,
+    "target_threshold": _target_threshold,
+    "difficulty": _difficulty,
+    "median_time": _median_time,
 }
 
 
@@ -403,8 +495,8 @@ GENESIS_FIELDS = [1, NULL32, GENESIS[36:68], int.from_bytes(GENESIS[68:72], "lit
 
 def model_call(c):
     op, a = c["op"], c["args"]
-    if op == "genesis_block":     # the expected value is the published genesis block, rebuilt by the model's block_ser
-        return ("c15_block_ser", [GENESIS[:80], [GENESIS[81:]]])
+    if op == "genesis_block":     # the model of the function itself (Model/Genesis.v); the oracle compares with the published block
+        return ("c15_genesis_block", [])
     if op == "seq":               # a sequence of model calls (common.model_eval): the model has no history
         return [model_call({"op": o, "args": list(x)}) for (o, x) in a[0]]
     if op == "cli_block_decode":  # judged by the model of the library call the subcommand wraps (canon picks the header)
@@ -415,6 +507,8 @@ def model_call(c):
         return ("c15_block_header", GENESIS_FIELDS) if a[1] else ("c15_block_ser", [GENESIS[:80], [GENESIS[81:]]])
     if op == "cli_mine_block_assemble":
         return ("c15_mine_block_assemble", a)
+    if op == "difficulty":        # str -> its ASCII bytes; None = the default argument "mainnet"
+        return ("c15_difficulty", [a[0], b"mainnet" if a[1] is None else a[1].encode("utf-8", "surrogatepass")])
     return ("c15_" + op, a)
 
 
@@ -684,7 +778,96 @@ def gen_cases(rng, tier):
         for mode in ("legacy", "segwit"):
             txs = [gen_tx(rng, mode == "segwit") for _ in range(n)]
             out.append(case("cli-mine-%s" % mode, "cli_mine_block_assemble", SPK, rng.choice([0, 16, 149, 150, 209999]), n % 2 == 1, txs))
+    out += gen_ext_cases(rng, T)
     return out[:4] + sq + out[4:]
+
+
+NBITS_MANTISSAS = [(0, "m0"), (1, "small"), (0xff, "small"), (0x100, "mid"), (0xffff, "mid"), (0x10000, "big"), (0x123456, "big"),
+                   (0x7fffff, "big"), (0x800000, "signbit"), (0x800001, "signbit"), (0x923456, "signbit"), (0xffffff, "signbit")]
+
+
+def _eclass(e):
+    return "e%d" % e if e <= 4 else ("e5-32" if e <= 32 else ("e%d" % e if e <= 34 else "e35plus"))
+
+
+def gen_ext_cases(rng, T):
+    """target_threshold / median_time / genesis_coinbase_tx (Props/C15Ext.v): every branch boundary of the models"""
+    out = []
+    out.append(case("corpus-genesis", "genesis_coinbase_tx"))
+    # ---- nBits: every exponent 0..36 (float below 3, Core's overflow rules at 33/34/35) x mantissa classes ----
+    for e in list(range(0, 37)) + [100, 128, 254, 255]:
+        for m, mc in NBITS_MANTISSAS:
+            out.append(case("nbits-%s-%s" % (_eclass(e), mc), "target_threshold", bytes([e]) + m.to_bytes(3, "big"), strict=True))
+        for _ in range(3 if T else 1):
+            m = rng.randrange(1 << 24)
+            out.append(case("nbits-%s-%s" % (_eclass(e), "signbit" if m >> 23 else "rand"), "target_threshold",
+                            bytes([e]) + m.to_bytes(3, "big")))
+    for h in ("1d00ffff", "207fffff", "1b0404cb", "17034219", "1c00ffff", "01123456", "02123456", "03123456", "04123456",
+              "05009234", "20123456", "04923456", "01fedcba", "ff123456", "00923456", "01803456", "02800056", "03800000",
+              "04800000", "01003456", "02008000"):
+        out.append(case("nbits-known", "target_threshold", bytes.fromhex(h), strict=True))
+    # other lengths: no exponent byte (0..3 bytes), several exponent bytes
+    for b in (b"", b"\x00", b"\x01", b"\xff", b"\x00\x00", b"\x01\x02", b"\x00\x00\x00", b"\x01\x02\x03", b"\xff\xff\xff"):
+        out.append(case("nbits-len-%d" % len(b), "target_threshold", b, strict=True))
+    for eb in (b"\x00\x00", b"\x00\x02", b"\x00\x03", b"\x00\x04", b"\x01\x00", b"\x01\x03", b"\x00\x00\x1d", b"\x02\x00",
+               b"\x00\x00\x00\x00\x03"):
+        for m in (0, 1, 0x00ffff, 0x800000):
+            out.append(case("nbits-len-%d" % (len(eb) + 3), "target_threshold", eb + m.to_bytes(3, "big"), strict=True))
+    for _ in range(400 if T else 60):
+        out.append(case("nbits-rand", "target_threshold", rng.randbytes(4)))
+    # ---- difficulty: MAX_TARGET / target as a correctly rounded float; network names; zero / negative / huge targets ----
+    MT, MTR = 0xFFFF << 208, 0x7FFFFF << 232
+    for net in (None, "mainnet", "testnet", "regtest"):
+        mx = MTR if net == "regtest" else MT
+        for t, cls in [(mx, "difficulty-one"), (1, "difficulty-max"), (2, "difficulty-max"), (3, "difficulty-inexact"), (mx - 1, "difficulty-inexact"),
+                       (mx + 1, "difficulty-inexact"), (mx * 2, "difficulty-below-one"), (mx * 3, "difficulty-below-one"),
+                       (0x0404cb << 192, "difficulty-known"), (0x034219 << 160, "difficulty-known"), (0, "difficulty-zero-target"),
+                       (-1, "difficulty-negative"), (-mx, "difficulty-negative"), (-3 * mx, "difficulty-negative"),
+                       (mx << 1021, "difficulty-normal-edge"), (mx << 1022, "difficulty-normal-edge"), ((mx << 1022) + 1, "difficulty-subnormal"),
+                       (mx << 1023, "difficulty-subnormal"), (3 * mx << 1060, "difficulty-subnormal"), (mx << 1074, "difficulty-subnormal"),
+                       ((mx << 1075) - 1, "difficulty-subnormal"), (mx << 1075, "difficulty-underflow-zero"), ((mx << 1075) + 1, "difficulty-subnormal"),
+                       (mx << 1076, "difficulty-underflow-zero"), (0x123456 << (8 * 252), "difficulty-underflow-zero")]:
+            out.append(case(cls, "difficulty", t, net, strict=True))
+        for _ in range(40 if T else 8):
+            out.append(case("difficulty-rand", "difficulty", rng.randrange(1, 1 << rng.choice([8, 64, 200, 224, 256, 300])), net))
+        for e in range(3, 35):
+            m = rng.randrange(1, 1 << 23)
+            out.append(case("difficulty-of-nbits", "difficulty", m << (8 * (e - 3)), net))
+    for net in ("signet", "", "MAINNET", "main", "regtest ", "mainnet\x00", "r\xe9gtest"):
+        out.append(case("difficulty-unknown-network", "difficulty", MT, net, strict=True))
+        out.append(case("difficulty-unknown-network", "difficulty", 0, net, strict=True))
+    # ---- median time: chains of 0..14 (+ longer) blocks; sorted, unsorted, duplicates, negative, huge ----
+    def mclass(n):
+        if n <= 1:
+            return "mtp-empty" if n == 0 else "mtp-height0"
+        k = min(n - 1, 11)
+        return "mtp-full-window" if n >= 12 else ("mtp-short-odd-count" if k % 2 else "mtp-short-even-count")
+    t0 = 1231006505
+    for n in list(range(0, 16)) + [20, 23, 50] + ([100, 1000] if T else []):
+        mono = [t0 + 600 * i + rng.randrange(-300, 300) for i in range(n)]
+        out.append(case(mclass(n) + "-sorted", "median_time", sorted(mono), strict=True))
+        for _ in range(6 if T else 3):
+            l = list(mono)
+            rng.shuffle(l)
+            out.append(case(mclass(n) + "-unsorted", "median_time", l, strict=True))
+        if n:
+            d = [rng.choice([7, 7, 8, 9, 9, 9, 10]) for _ in range(n)]
+            out.append(case(mclass(n) + "-dups", "median_time", d, strict=True))
+            out.append(case(mclass(n) + "-dups", "median_time", [5] * n, strict=True))
+            out.append(case(mclass(n) + "-signs", "median_time", [rng.choice([-1, 1]) * rng.randrange(0, 50) for _ in range(n)], strict=True))
+            out.append(case(mclass(n) + "-wide", "median_time", [rng.randrange(-2 ** 70, 2 ** 70) for _ in range(n)], strict=True))
+            out.append(case(mclass(n) + "-parity", "median_time", [2 * rng.randrange(0, 9) + (i & 1) for i in range(n)], strict=True))
+            # an early block later than the tip / the tip earlier than everything (window edge: heights n-11 and n-12)
+            e = list(mono)
+            e[0] = mono[-1] + 10 ** 6
+            if n > 12:
+                e[n - 12] = mono[-1] + 10 ** 6
+                e[n - 11] = mono[0] - 10 ** 6
+            out.append(case(mclass(n) + "-edge", "median_time", e, strict=True))
+    for _ in range(300 if T else 40):
+        n = rng.randrange(1, 16)
+        out.append(case("mtp-rand", "median_time", [rng.randrange(0, 30) for _ in range(n)]))
+    return out
 
 
 # ------------------------------------------------------------------------------------------------
@@ -939,6 +1122,66 @@ def prop_oracle(c):
         if mr != want:
             return "mine_block header merkle root %s is not the merkle root of the block's txids %s" % (mr.hex(), want.hex())
         return None
+    # ---- extension (Props/C15Ext.v): the standards' statements on the ranges where the theorems say they hold ----
+    if op == "genesis_coinbase_tx":
+        r = _call(_genesis_coinbase_tx)
+        if r != ("ok", GENESIS[81:]):
+            return "genesis_coinbase_tx() is not the coinbase transaction of the published genesis block"
+        if h256(GENESIS[81:]) != GENESIS[36:68]:
+            return "harness: hash256 of the published coinbase is not the published merkle root"
+        return None
+    if op == "target_threshold":
+        b = a[0]
+        r = _call(_target_threshold, b)
+        if r[0] != "ok":
+            return "target_threshold refused %s: %s" % (b.hex(), r[1])
+        if len(b) != 4:
+            return None
+        c = int.from_bytes(b, "big")
+        e, m = c >> 24, c & 0xffffff
+        value, neg, ovf = ref_setcompact(c)
+        if e >= 3:
+            if r[1] != m * 256 ** (e - 3):
+                return "target_threshold(%s) = %r is not mantissa * 256^(exponent-3) (developer reference)" % (b.hex(), r[1])
+            if not (c & 0x00800000) and not ovf and (neg or r[1] != value or not (0 <= r[1] < 2 ** 256)):
+                return "target_threshold(%s) = %r differs from Bitcoin Core SetCompact %r" % (b.hex(), r[1], value)
+        return None
+    if op == "difficulty":
+        t, net = a
+        if net not in (None, "mainnet", "testnet", "regtest"):
+            r = _call(_difficulty, t, net)
+            return None if r[0] == "err" else "difficulty accepted the unknown network %r" % (net,)
+        if t == 0:
+            return None
+        from fractions import Fraction
+        r = _call(_difficulty, t, net)
+        if r[0] != "ok":
+            return "difficulty(%d, %r) failed: %s" % (t, net, r[1])
+        got = Fraction(*r[1])
+        exact = Fraction((0x7FFFFF << 232) if net == "regtest" else (0xFFFF << 208), t)
+        # within half a unit in the last place of a binary64 (2^-53 relative; absolute 2^-1075 in the subnormal range)
+        if abs(got - exact) > max(abs(exact) / 2 ** 53, Fraction(1, 2 ** 1075)):
+            return "difficulty(%d, %r) = %s is not the float nearest to max_target / target" % (t, net, got)
+        return None
+    if op == "median_time":
+        chain = a[0]
+        if not chain:
+            return None
+        r = _call(_median_time, chain)
+        if r[0] != "ok":
+            return "median_time failed on a chain of %d blocks: %s" % (len(chain), r[1])
+        if not (min(chain) <= r[1] <= max(chain)):
+            return "median_time %r is outside the block times [%d, %d]" % (r[1], min(chain), max(chain))
+        n = len(chain)
+        if (n >= 12 or n == 1) and r[1] != ref_mtp(chain):
+            return "median_time of a chain of %d blocks is %r, Bitcoin Core's median time past is %r" % (n, r[1], ref_mtp(chain))
+        k = min(n - 1, 11)
+        if k >= 2:      # the same blocks in the window in another order: the same median
+            w = chain[n - k:]
+            for alt in (chain[:n - k] + w[::-1], chain[:n - k] + w[1:] + w[:1]):
+                if _call(_median_time, alt) != r:
+                    return "median_time changes when the last %d block times are permuted" % k
+        return None
     return None
 
 
@@ -955,7 +1198,7 @@ def extra_checks(ctx):
     n = 0
     for c in cases:
         k = (c["cls"], c["op"])
-        lim = 40 if c["cls"].startswith(("merkle", "height-bip34", "height-halving", "reward", "script-len", "wroot")) else 12
+        lim = 40 if c["cls"].startswith(("merkle", "height-bip34", "height-halving", "reward", "script-len", "wroot", "nbits-known", "mtp-", "difficulty-")) else 12
         if T:
             lim *= 3
         if per.get(k, 0) >= lim:
@@ -985,6 +1228,12 @@ def extra_checks(ctx):
             m += 1
             l = ids(k, k)
             if model.call("c15_spec_merkle", [l]) != ("ok", ref_merkle(l)):
+                bad += 1
+        # Bitcoin Core's SetCompact as extracted from Spec/Target.v against the Python transcription above
+        cs = [(e << 24) | mm for e in list(range(0, 37)) + [255] for mm, _ in NBITS_MANTISSAS] + [r2.randrange(2 ** 32) for _ in range(300)]
+        for cc in cs:
+            m += 1
+            if model.call("c15_spec_setcompact", [cc]) != ("ok", ref_setcompact(cc)):
                 bad += 1
         ctx["stats"]["extra"]["spec_vs_python_reference"] = m
         if bad:
@@ -1030,6 +1279,20 @@ def coq_equation(c, mr):
         # (c15_coinbase_tx is the [floordiv_pow2_fast] instance, so large heights are cheap in vm_compute as well)
         return "c15_coinbase_tx %s %s %s %s %s %s = %s" % (coq_bytes(a[0]), coq_bytes(a[1]), o(a[2]), o(a[3]), coq_lit(a[4]),
                                                             o(a[5]), coq_result(mr))
+    if op == "target_threshold" and mr[0] == "ok" and len(a[0]) <= 8 and (not isinstance(mr[1], int) or mr[1] < 2 ** 4096):
+        v = mr[1]
+        rhs = "Bits.Model.Target.PInt %s" % coq_lit(v) if isinstance(v, int) else \
+            "Bits.Model.Target.PFloat %s %s" % (coq_lit(v[0]), coq_lit(v[1]))
+        return "c15_target_threshold %s = %s" % (coq_bytes(a[0]), rhs)
+    if op == "difficulty" and abs(a[0]) < 2 ** 600 and (a[1] is None or a[1].isascii()):
+        rhs = "Err %s" % mr[1] if mr[0] == "err" else "Ok (Bits.Model.Target.PFloat %s %s)" % (coq_lit(mr[1][0]), coq_lit(mr[1][1]))
+        return "c15_difficulty %s %s = %s" % (coq_lit(a[0]), coq_bytes((a[1] or "mainnet").encode()), rhs)
+    if op == "median_time" and len(a[0]) <= 30:
+        return "c15_median_time %s = %s" % (coq_lit(list(a[0])), coq_result(mr))
+    if op == "genesis_coinbase_tx":
+        return "c15_genesis_coinbase_tx = %s" % coq_result(mr)
+    if op == "genesis_block":
+        return "c15_genesis_block sha256 = %s" % coq_result(mr)
     if op == "block_header":
         return "c15_block_header (c15_mk_header %s) = %s" % (" ".join(coq_lit(x) for x in a), coq_result(mr))
     if op == "block_header_deser" and len(a[0]) <= 160:
@@ -1040,5 +1303,5 @@ def coq_equation(c, mr):
 
 # ops whose answer must not depend on the concrete bytes-like type of their arguments (they agree on the pinned tree;
 # tools/bytearray_probe.py); common.py re-runs a sample of their cases with bytearray arguments
-BYTEARRAY_OPS = {'coinbase_tx', 'block_header', 'block_ser', 'coinbase_txin', 'block_deser', 'block_header_deser', 'mine_block_assemble'}
-MEMORYVIEW_OPS = {'block_header_deser', 'block_header', 'coinbase_tx', 'block_deser', 'mine_block_assemble', 'coinbase_txin'}
+BYTEARRAY_OPS = {'target_threshold', 'coinbase_tx', 'block_header', 'block_ser', 'coinbase_txin', 'block_deser', 'block_header_deser', 'mine_block_assemble'}
+MEMORYVIEW_OPS = {'target_threshold', 'block_header_deser', 'block_header', 'coinbase_tx', 'block_deser', 'mine_block_assemble', 'coinbase_txin'}
